@@ -137,7 +137,8 @@ def stage_command(stage):
     if kind == "harness":
         return [buildlib.build_harness(stage["src"], stage.get("flavor", "asan"), stage.get("flags", ()),
                                        stage.get("link", ()), stage.get("extra_srcs", ()), stage.get("deps", ()),
-                                       lib_defs=stage.get("lib_defs", ()), rapidcheck=stage.get("rapidcheck", True))]
+                                       lib_defs=stage.get("lib_defs", ()), rapidcheck=stage.get("rapidcheck", True),
+                                       exclude_lib=stage.get("exclude_lib", ()))]
     if kind == "pydriver":
         cmd = ["python3-vt", os.path.join(VERIF, stage["driver"])]
         if stage.get("shim"):
@@ -387,8 +388,10 @@ def run_check(pid, tier, only=None):
         try:
             r = stage_runner(stage)(pid, stage, tier, seed, known_sigs, only)
         except RuntimeError as e:
-            say("INFRA-ERROR: property=%s stage=%s %s" % (pid, stage["name"], e))
-            return 2
+            # this stage cannot be built/run against the tree: an infrastructure problem for THIS stage; the other
+            # stages still run, and what they find is still reported
+            infra.append("stage=%s %s" % (stage["name"], e))
+            continue
         r._stage = stage
         results.append(r)
         infra += r.infra_errors
